@@ -253,3 +253,218 @@ def gen_pair(repo):
     return [("Pms/GenR/Pair.lean", "\n".join(outR) + "\n", [rel]),
             ("Pms/Gen/PairF.lean", "\n".join(outF) + "\n", [rel]),
             ("Pms/Gen/PairTab.lean", "\n".join(deep) + "\n", [rel])]
+
+
+# --------------------------------------------------------------------------- G3: spherical harmonics table (C08)
+
+from fractions import Fraction as _F
+
+
+def _is_call(n, mod, name):
+    return isinstance(n, ast.Call) and isinstance(n.func, ast.Attribute) and n.func.attr == name \
+        and isinstance(n.func.value, ast.Name) and n.func.value.id == mod and len(n.args) == 1 and not n.keywords
+
+
+def _const_frac(n):
+    if isinstance(n, ast.Constant) and isinstance(n.value, int) and not isinstance(n.value, bool):
+        return _F(n.value)
+    if isinstance(n, ast.UnaryOp) and isinstance(n.op, ast.USub):
+        return -_const_frac(n.operand)
+    if isinstance(n, ast.BinOp) and isinstance(n.op, ast.Div):
+        d = _const_frac(n.right)
+        if d == 0:
+            raise Unrecognised("division by zero constant")
+        return _const_frac(n.left) / d
+    if isinstance(n, ast.BinOp) and isinstance(n.op, ast.Mult):
+        return _const_frac(n.left) * _const_frac(n.right)
+    raise Unrecognised("not a rational constant: " + ast.dump(n)[:80])
+
+
+def _sqrt_over_pi(n):
+    e = n.args[0]
+    if not (isinstance(e, ast.BinOp) and isinstance(e.op, ast.Div) and isinstance(e.right, ast.Attribute)
+            and e.right.attr == "pi" and isinstance(e.right.value, ast.Name) and e.right.value.id == "np"):
+        raise Unrecognised("sqrt argument is not <rational>/np.pi")
+    return _const_frac(e.left)
+
+
+def _is_trig(n, fn, var):
+    return _is_call(n, "np", fn) and isinstance(n.args[0], ast.Name) and n.args[0].id == var
+
+
+def _poly_in_cos(n, var):
+    if _is_trig(n, "cos", var):
+        return {1: _F(1)}
+    if isinstance(n, ast.Constant) and isinstance(n.value, int) and not isinstance(n.value, bool):
+        return {0: _F(n.value)}
+    if isinstance(n, ast.BinOp):
+        if isinstance(n.op, ast.Pow):
+            if not (_is_trig(n.left, "cos", var) and isinstance(n.right, ast.Constant) and isinstance(n.right.value, int) and n.right.value >= 0):
+                raise Unrecognised("power in cos polynomial")
+            return {n.right.value: _F(1)}
+        if isinstance(n.op, ast.Mult):
+            a, b = _poly_in_cos(n.left, var), _poly_in_cos(n.right, var)
+            out = {}
+            for i, x in a.items():
+                for j, y in b.items():
+                    out[i + j] = out.get(i + j, 0) + x * y
+            return out
+        if isinstance(n.op, (ast.Add, ast.Sub)):
+            a, b = _poly_in_cos(n.left, var), _poly_in_cos(n.right, var)
+            sg = 1 if isinstance(n.op, ast.Add) else -1
+            out = dict(a)
+            for j, y in b.items():
+                out[j] = out.get(j, 0) + sg * y
+            return out
+        if isinstance(n.op, ast.Div):
+            a = _poly_in_cos(n.left, var)
+            d = _const_frac(n.right)
+            return {k: v / d for k, v in a.items()}
+    if isinstance(n, ast.UnaryOp) and isinstance(n.op, ast.USub):
+        return {k: -v for k, v in _poly_in_cos(n.operand, var).items()}
+    raise Unrecognised("cos polynomial: " + ast.dump(n)[:80])
+
+
+def _factors(n):
+    if isinstance(n, ast.BinOp) and isinstance(n.op, ast.Mult):
+        return _factors(n.left) + _factors(n.right)
+    if isinstance(n, ast.UnaryOp) and isinstance(n.op, ast.USub):
+        return [ast.Constant(value=-1)] + _factors(n.operand)
+    return [n]
+
+
+def _sph_entry(expr, polar, azim):
+    c, s, m, k, poly = _F(1), None, 0, 0, {0: _F(1)}
+    seen_exp = False
+    for f in _factors(expr):
+        if _is_call(f, "np", "sqrt"):
+            if s is not None:
+                raise Unrecognised("two sqrt factors")
+            s = _sqrt_over_pi(f)
+            continue
+        if _is_call(f, "cmath", "exp"):
+            if seen_exp:
+                raise Unrecognised("two exp factors")
+            seen_exp = True
+            a = f.args[0]
+            if not (isinstance(a, ast.BinOp) and isinstance(a.op, ast.Mult) and isinstance(a.right, ast.Name) and a.right.id == azim):
+                raise Unrecognised("exp argument")
+            z, neg = a.left, False
+            if isinstance(z, ast.UnaryOp) and isinstance(z.op, ast.USub):
+                neg, z = True, z.operand
+            if not (isinstance(z, ast.Constant) and isinstance(z.value, complex) and z.value.real == 0 and z.value.imag == int(z.value.imag)):
+                raise Unrecognised("exp coefficient")
+            m = int(z.value.imag) * (-1 if neg else 1)
+            continue
+        if _is_trig(f, "sin", polar):
+            k += 1
+            continue
+        if isinstance(f, ast.BinOp) and isinstance(f.op, ast.Pow) and _is_trig(f.left, "sin", polar) \
+                and isinstance(f.right, ast.Constant) and isinstance(f.right.value, int) and f.right.value >= 0:
+            k += f.right.value
+            continue
+        try:
+            c *= _const_frac(f)
+            continue
+        except Unrecognised:
+            pass
+        p = _poly_in_cos(f, polar)
+        out = {}
+        for i, x in poly.items():
+            for j, y in p.items():
+                out[i + j] = out.get(i + j, 0) + x * y
+        poly = out
+    if s is None:
+        raise Unrecognised("no sqrt(…/pi) factor")
+    deg = max(poly)
+    return c, s, m, k, [poly.get(i, _F(0)) for i in range(deg + 1)]
+
+
+def _rat(q):
+    q = _F(q)
+    if q.denominator == 1:
+        return f"({q.numerator} : Rat)" if q.numerator >= 0 else f"(-{-q.numerator} : Rat)"
+    return f"(({q.numerator} : Rat) / {q.denominator})" if q.numerator >= 0 else f"((-{-q.numerator} : Rat) / {q.denominator})"
+
+
+def lean_escape(s):
+    return s.replace("\\", "\\\\").replace('"', '\\"').replace("\n", "\\n")
+
+
+@generator("sph")
+def gen_sph(repo):
+    rel = "PyMatterSim/utils/spherical_harmonics.py"
+    src = read(repo, rel)
+    tree = ast.parse(src)
+    rows = []
+    for fn in tree.body:
+        if isinstance(fn, ast.FunctionDef) and fn.name.startswith("SphHarm") and fn.name[7:].isdigit() and fn.name != "SphHarm0":
+            l = int(fn.name[7:])
+            params = [a.arg for a in fn.args.args]
+            if params != ["theta", "phi"]:
+                raise Unrecognised(f"{fn.name} parameters {params}")
+            assigns, order, ret = {}, [], None
+            for st in strip_doc(fn.body):
+                if isinstance(st, ast.Assign) and len(st.targets) == 1 and isinstance(st.targets[0], ast.Name):
+                    nm = st.targets[0].id
+                    if nm == "results":
+                        if not (isinstance(st.value, ast.List) and not st.value.elts):
+                            raise Unrecognised("results initialiser")
+                        continue
+                    if nm in assigns:
+                        raise Unrecognised(f"{fn.name}: {nm} assigned twice")
+                    assigns[nm] = st.value
+                elif isinstance(st, ast.Expr) and isinstance(st.value, ast.Call) and ast.unparse(st.value.func) == "results.append" \
+                        and len(st.value.args) == 1 and isinstance(st.value.args[0], ast.Name):
+                    order.append(st.value.args[0].id)
+                elif isinstance(st, ast.Return):
+                    ret = ast.unparse(st.value)
+                else:
+                    raise Unrecognised(f"{fn.name}: statement {ast.unparse(st)[:60]}")
+            if ret != "np.array(results)":
+                raise Unrecognised(f"{fn.name} returns {ret}")
+            rows.append((l, [_sph_entry(assigns[nm], "theta", "phi") for nm in order]))
+    rows.sort()
+    out = ["import Pms.Model.Sph", "/-! REGENERATED by translator/pms2lean.py from " + rel + " — do not edit -/",
+           "namespace Pms.Gen.Sph", "open Pms.Sph", "",
+           "/-- (degree l, closed forms in the order they are appended to the result) -/",
+           "def table : List (Nat × List Entry) := ["]
+    rtxt = []
+    for l, es in rows:
+        etxt = ",\n".join("    { c := %s, s := %s, m := %d, k := %d, p := [%s] }" % (_rat(c), _rat(s), m, k, ", ".join(_rat(a) for a in p))
+                          for c, s, m, k, p in es)
+        rtxt.append(f"  ({l}, [\n{etxt}])")
+    out.append(",\n".join(rtxt) + "]")
+    out.append("")
+    # dispatcher
+    disp = find_func(tree, "sph_harm_l")
+    if [a.arg for a in disp.args.args] != ["l", "theta", "phi"]:
+        raise Unrecognised("sph_harm_l parameters")
+    drows = []
+    for st in strip_doc(disp.body):
+        if isinstance(st, ast.If) and not st.orelse and len(st.body) == 1 and isinstance(st.body[0], ast.Return):
+            drows.append((ast.unparse(st.test), ast.unparse(st.body[0].value)))
+        else:
+            raise Unrecognised("sph_harm_l statement " + ast.unparse(st)[:60])
+    out.append("/-- (test, returned call) of the degree dispatcher, in source order -/")
+    out.append("def dispatch : List (String × String) := [" + ", ".join('("%s", "%s")' % (lean_escape(a), lean_escape(b)) for a, b in drows) + "]")
+    out.append("")
+    # delegated branch
+    ab = find_func(tree, "SphHarm_above")
+    if [a.arg for a in ab.args.args] != ["l", "theta", "phi"]:
+        raise Unrecognised("SphHarm_above parameters")
+    body = strip_doc(ab.body)
+    out.append("/-- statements of SphHarm_above, unparsed, in order -/")
+    out.append("def above : List String := [" + ", ".join('"%s"' % lean_escape(ast.unparse(st)) for st in body) + "]")
+    # where does `sph_harm` come from
+    imp = []
+    for st in tree.body:
+        if isinstance(st, (ast.Import, ast.ImportFrom, ast.Try)) and "sph_harm" in ast.unparse(st):
+            imp.append(ast.unparse(st))
+        if isinstance(st, ast.FunctionDef) and st.name == "sph_harm":
+            imp.append(ast.unparse(st))
+    out.append("/-- every top-level statement that binds the name `sph_harm` -/")
+    out.append("def libBinding : List String := [" + ", ".join('"%s"' % lean_escape(x) for x in imp) + "]")
+    out.append("")
+    out.append("end Pms.Gen.Sph")
+    return [("Pms/Gen/Sph.lean", "\n".join(out) + "\n", [rel])]
